@@ -79,21 +79,27 @@ func (lv *LeafVariants) canDelete() bool {
 		return true
 	}
 
-	// if we have runnig and only running we should not delete
-	if len(lv.les) == 1 && lv.les[0].Owner() == RunningIntentName {
-		return false
-	}
-
+	hasRunning := false
+	foundOtherThenRunningAndDefault := false
 	// go through all variants
 	for _, l := range lv.les {
+		if l.Update.Owner() == RunningIntentName {
+			hasRunning = true
+			continue
+		}
 		// if the LeafVariant is not owned by running or default
-		if l.Update.Owner() != RunningIntentName && l.Update.Owner() != DefaultsIntentName {
+		if l.Update.Owner() != DefaultsIntentName {
+			foundOtherThenRunningAndDefault = true
 			// then we need to check that it remains, so not Delete Flag set or DeleteOnylIntended Flags set [which results in not doing a delete towards the device]
 			if l.GetDeleteOnlyIntendedFlag() || !l.GetDeleteFlag() {
 				// then this entry should not be deleted
 				return false
 			}
 		}
+	}
+	// if we have running and only running (besides a possible default) we should not delete
+	if hasRunning && !foundOtherThenRunningAndDefault {
+		return false
 	}
 	return true
 }
